@@ -89,12 +89,12 @@ BitLen8(x) == IF x >= 128 THEN 8 ELSE IF x >= 64 THEN 7 ELSE IF x >= 32 THEN 6 E
               ELSE IF x >= 8 THEN 4 ELSE IF x >= 4 THEN 3 ELSE IF x >= 2 THEN 2 ELSE IF x >= 1 THEN 1 ELSE 0
 NBits(a) == IF a = <<>> THEN 0 ELSE 8 * (Len(a) - 1) + BitLen8(a[Len(a)])
 \* bit i (i >= 0, bit 0 is the least significant)
-NBit(a, i) == (Limb(a, i \div 8 + 1) \div Pow2Small[i % 8 + 1]) % 2
+NBit(a, i) == (Limb(a, i \div 8 + 1) \div Pow2Small[(i % 8) + 1]) % 2
 
 Zeros(n) == [i \in 1..n |-> 0]
-NShl(a, n) == IF a = <<>> THEN <<>> ELSE Zeros(n \div 8) \o NMulSmall(a, Pow2Small[n % 8 + 1])
+NShl(a, n) == IF a = <<>> THEN <<>> ELSE Zeros(n \div 8) \o NMulSmall(a, Pow2Small[(n % 8) + 1])
 NShr(a, n) == IF n \div 8 >= Len(a) THEN <<>>
-              ELSE NDivSmall(SubSeq(a, n \div 8 + 1, Len(a)), Pow2Small[n % 8 + 1]).q
+              ELSE NDivSmall(SubSeq(a, n \div 8 + 1, Len(a)), Pow2Small[(n % 8) + 1]).q
 NPow2(n) == NShl(<<1>>, n)
 
 \* a mod 2^bits
